@@ -80,6 +80,14 @@ Scripts == [ tick |-> << <<"inst", 32, 16, 0>>, <<"gen", 16, 0>>, <<"tick", Time
              sizes |-> << <<"inst", 32, 16, 0>>, <<"gen", 2048, 0>>, <<"gen", 2049, 7>>, <<"gen", 1, 0>>, <<"gen", 2047, 7>>,
                           <<"reseed", 32, 0>>, <<"gen", 2048, 7>>, <<"gen", 2049, 0>>, <<"gen", 0, 0>>, <<"gen", 33, 0>> >>,
              sizes2 |-> << <<"inst", 32, 16, 0>>, <<"gen", 2048, 0>>, <<"gen", 2049, 7>>, <<"gen", 33, 0>> >>,
+             \* a long history with exact bytes: early reseed, run into the gate, refusals, reseed at the gate,
+             \* reseed in mid-interval, gate again, reseed, go on (request sizes fit every mode)
+             long |-> << <<"inst", 32, 16, 0>>, <<"gen", 16, 0>>, <<"gen", 15, 5>>, <<"reseed", 32, 0>>,
+                         <<"gen", 16, 0>>, <<"gen", 16, 0>>, <<"gen", 16, 0>>, <<"gen", 15, 5>>, <<"gen", 15, 5>>, <<"gen", 0, 0>>,
+                         <<"gen", 16, 7>>, <<"gen", 1, 0>>, <<"gen", 16, 0>>, <<"gen", 15, 5>>, <<"reseed", 48, 9>>,
+                         <<"gen", 15, 5>>, <<"gen", 15, 5>>, <<"gen", 15, 5>>, <<"gen", 0, 0>>, <<"reseed", 32, 0>> >>
+                      \o [i \in 1..(Interval + 1) |-> <<"gen", 16, 0>>]
+                      \o << <<"reseed", 32, 3>>, <<"gen", 16, 0>>, <<"gen", 15, 5>> >>,
              \* another configured interval (security level 2: 1024): run to the gate, see refusals, reseed, go on
              \* (instance constant Interval = 1024, envelope only)
              level |-> << <<"inst", 32, 16, 0>> >> \o [i \in 1..(Interval + 2) |-> <<"gen", 1, 0>>]
@@ -96,8 +104,10 @@ Next == IF Script # <<>>
 Spec == Init /\ [][Next]_vars
 
 (* Reach: keep a history only while it can still run into the reseed gate and see the refusal     *)
-(* (and one reseed + generate after it) within MaxOps                                              *)
-CanReach == ~Reach \/ ~inst \/ NeedReseed \/ (Interval + 1 - st.reseed_counter) + 1 <= MaxOps - nops
+(* within MaxOps; once a refusal has been seen the history goes on to MaxOps (reseed at the gate,    *)
+(* generate after it, ...)                                                                          *)
+SeenGate == \E i \in 1..Len(hist) : hist[i].op = "gen" /\ hist[i].res \in {"reseed", "anyerr"}
+CanReach == ~Reach \/ ~inst \/ NeedReseed \/ SeenGate \/ (Interval + 1 - st.reseed_counter) + 1 <= MaxOps - nops
 
 TypeOK == /\ nops <= MaxOps
           /\ B!IsBytes(st.V) /\ B!IsBytes(st.C) /\ B!IsBytes(st.Key)
